@@ -25,10 +25,11 @@ def plan(tier, seed):
             conds += t1(2, 2, ctx=ctx, timeout=240)
         b = "arbitrary loaded set S x full vocabulary N=2 from the initial state and from %d context prefixes" % (len(H.CONTEXTS) - 1)
     else:
-        conds += t1(3, 44, timeout=2400)
+        conds += t1(3, 88, timeout=2400)
         for ctx in range(1, len(H.CONTEXTS)):
-            conds += t1(3, 22, ctx=ctx, timeout=2400)
-        b = "arbitrary loaded set S x full vocabulary N=3 from the initial state and from %d context prefixes" % (len(H.CONTEXTS) - 1)
+            conds += t1(2, 8, ctx=ctx, timeout=1200)
+        b = ("arbitrary loaded set S x full vocabulary N=3 from the initial state, N=2 from %d context prefixes"
+             % (len(H.CONTEXTS) - 1))
     conds.append(Cond("ext-vacuity", F, "ext_carrier", env={"C07_LO": 0, "C07_HI": 4}, timeout=60, vacuity=True))
     meta = dict(functions=PARSER_FUNCS + ["sievelib.commands.Command.__is_valid_value_for_arg (extension_values)",
                                           "sievelib.commands.RequireCommand.loaded_extensions (replaced by LazyExtSet)"],
